@@ -1,6 +1,8 @@
 package checks
 
 import (
+	kvql "github.com/c4pt0r/kvql"
+
 	"errors"
 	"fmt"
 
@@ -96,7 +98,7 @@ func (c13) Rule() string {
 }
 
 func (c13) Assumptions() []string {
-	return []string{"single faults only: once a call failed the store keeps failing and counts further attempts", "the caller stops polling at the first error, as a user of the API would", "BuildPlan legitimately issues Cursor/Seek twice (Init runs twice); both count as fault positions"}
+	return []string{"single faults only: once a call failed the store keeps failing and counts further attempts", "the caller stops polling a SELECT at the first error, as a user of the API would; a failed write statement (put/remove/delete) is polled three more times and must stay stopped", "BuildPlan legitimately issues Cursor/Seek twice (Init runs twice); both count as fault positions"}
 }
 
 func (c13) Gates(tier string, m map[string]int64) []rt.Gate {
@@ -213,8 +215,42 @@ func (k c13) enumerate(c *rt.Ctx, q string, pairs []refstore.Pair, m drive.Mode)
 			c.Violation("storage-error-replaced", cluster, detail(rt.D{"fault_index": i, "failed_op": op, "returned_error": err.Error()}, flog, fo))
 			return
 		}
+		// a write statement that failed stays stopped: polling its plan again issues no storage
+		// operation (C12: the writes are issued once however often the plan is polled)
+		if !isSelect && fo.Plan != nil {
+			calls, pan := c13Repoll(fo.Plan, m.Batch)
+			rec.Inc("failed_write_plans_polled_again")
+			if pan != "" {
+				c.Violation("panic-after-storage-error", cluster+" / when polled again", detail(rt.D{"fault_index": i, "failed_op": op, "panic": pan}, fs.Log(), fo))
+				return
+			}
+			if fs.AfterFault > 0 {
+				c.Violation("storage-call-after-failed-call", cluster+" / when the failed plan is polled again", detail(rt.D{"fault_index": i, "failed_op": op, "calls_after_fault": fs.AfterFault, "polls": calls}, fs.Log(), fo))
+				return
+			}
+		}
 	}
 	if c.Case%97 == 0 {
 		rec.Sample(rt.D{"statement": q, "mode": m.String(), "store_size": len(pairs), "fault_positions": n, "fault_free_log": trimLog(refstore.FormatLog(log))})
 	}
+}
+
+// c13Repoll polls a plan three more times (alternating the two entry points, starting with
+// the mode the statement ran in); what it returns is not judged here, only what it does.
+func c13Repoll(p kvql.FinalPlan, batch bool) (polls int, pan string) {
+	defer func() {
+		if r := recover(); r != nil {
+			pan = fmt.Sprint(r)
+		}
+	}()
+	ctx := kvql.NewExecuteCtx()
+	for i := 0; i < 3; i++ {
+		if batch == (i%2 == 0) {
+			p.Batch(ctx)
+		} else {
+			p.Next(ctx)
+		}
+		polls++
+	}
+	return polls, ""
 }
